@@ -57,13 +57,13 @@ pub fn c09_osu_accuracy_stable() {
 #[kani::proof]
 #[kani::unwind(3)]
 pub fn c09_osu_accuracy_slider_acc() {
-    osu_accuracy_unit::<1, 256>();
+    osu_accuracy_unit::<1, 32>();
 }
 
 #[kani::proof]
 #[kani::unwind(3)]
 pub fn c09_osu_accuracy_classic_slider_acc() {
-    osu_accuracy_unit::<2, 256>();
+    osu_accuracy_unit::<2, 32>();
 }
 
 #[kani::proof]
